@@ -116,20 +116,91 @@ fn uop_first(env: &mut Env) -> &'static Vec<bool> {
     })
 }
 
+/// Third history alphabet: full word sets of shipped constants that nearly
+/// collide (same number of words, every word equal or sharing a prefix of at
+/// least five characters: mauritius/mauritania, niger/nigeria, ...), taken
+/// from the independent decode of the data files. Oracle: the constant
+/// returned carries exactly those words and the value is the stored one,
+/// whatever was asked before.
+fn near_collisions() -> &'static Vec<(String, Vec<String>, num::BigRational)> {
+    static NC: std::sync::OnceLock<Vec<(String, Vec<String>, num::BigRational)>> = std::sync::OnceLock::new();
+    NC.get_or_init(|| {
+        let all: Vec<crate::refdb::RefConstant> = crate::refdb::constants().into_iter().filter(|c| crate::props::c16::typeable_phrase(&c.tokens) && c.value.is_some()).collect();
+        // word sets that occur once
+        let mut count = std::collections::HashMap::new();
+        for c in &all {
+            let mut t = c.tokens.clone();
+            t.sort();
+            *count.entry(t).or_insert(0) += 1;
+        }
+        let uniq: Vec<&crate::refdb::RefConstant> = all
+            .iter()
+            .filter(|c| {
+                let mut t = c.tokens.clone();
+                t.sort();
+                count[&t] == 1
+            })
+            .collect();
+        let near = |a: &str, b: &str| a == b || (a.len() >= 5 && b.len() >= 5 && a.chars().zip(b.chars()).take_while(|(x, y)| x == y).count() >= 5);
+        let mut picked: Vec<usize> = Vec::new();
+        'outer: for i in 0..uniq.len() {
+            for j in (i + 1)..uniq.len() {
+                let (a, b) = (&uniq[i].tokens, &uniq[j].tokens);
+                if a.len() == b.len() && a != b && a.iter().zip(b.iter()).all(|(x, y)| near(x, y)) {
+                    for k in [i, j] {
+                        if !picked.contains(&k) {
+                            picked.push(k);
+                        }
+                    }
+                    if picked.len() >= 16 {
+                        break 'outer;
+                    }
+                }
+            }
+        }
+        picked.into_iter().map(|k| (uniq[k].tokens.join(" "), uniq[k].tokens.clone(), uniq[k].value.clone().unwrap())).collect()
+    })
+}
+
+fn near_ok(db: &anything::Db, k: usize) -> Result<(), String> {
+    let (q, tokens, value) = &near_collisions()[k];
+    let d = obs::eval_described(db, q, true).ok_or_else(|| format!("`{q}`: parse failed"))?;
+    if d.results.len() != 1 || d.descriptions.len() != 1 {
+        return Err(format!("`{q}`: {} results, {} descriptions", d.results.len(), d.descriptions.len()));
+    }
+    let mut got: Vec<String> = d.descriptions[0].1.tokens.iter().map(|t| t.to_string()).collect();
+    let mut want = tokens.clone();
+    got.sort();
+    want.sort();
+    if got != want {
+        return Err(format!("`{q}` is answered with the constant {:?}", d.descriptions[0].1.tokens));
+    }
+    match &d.results[0] {
+        Res::Ok { value: v, .. } if v == value => Ok(()),
+        other => Err(format!("`{q}` = {}, stored value {value}", other.short())),
+    }
+}
+
 /// multi-result family: (text, phrases in source order, prescribed error?)
-const MULTI_A: [(&str, &[&str], bool); 5] = [
+const MULTI_A: [(&str, &[&str], bool); 8] = [
     ("2 * mercury mass", &["mercury mass"], false),
     ("earth mass / mercury mass", &["earth mass", "mercury mass"], false),
     ("mercury mass", &["mercury mass"], false),
     ("earth mass + 1 s", &["earth mass"], true),
     ("mercury mass / 0", &["mercury mass"], true),
+    // casts: the looked-up operand of `to` is described like any other
+    ("mercury mass to g", &["mercury mass"], false),
+    ("2 * mercury mass to lb", &["mercury mass"], false),
+    ("earth mass to s", &["earth mass"], true),
 ];
-const MULTI_B: [(&str, &[&str], bool); 5] = [
+const MULTI_B: [(&str, &[&str], bool); 7] = [
     ("2 * mercury diameter", &["mercury diameter"], false),
     ("population finland", &["population finland"], false),
     ("mercury diameter + 1 s", &["mercury diameter"], true),
     ("population finland / 0", &["population finland"], true),
     ("1 / 0", &[], true),
+    ("mercury diameter to mi", &["mercury diameter"], false),
+    ("mercury diameter / 2 to m", &["mercury diameter"], false),
 ];
 
 const PHRASES: [&str; 4] = ["mercury mass", "earth mass", "mercury diameter", "population finland"];
@@ -195,7 +266,7 @@ impl Prop for C18 {
         false
     }
     fn rule(&self) -> String {
-        "histories: all sequences of length <=3 (thorough <=4) over 18 operations (9 queries: literal-only, one fact, two facts, facts inside a function call, an error after a lookup, a cast of a fact, a single word carried by several constants, the full word set of one of those, a three-result query whose middle expression fails after a lookup; each with descriptions off/on; a history is judged only if each of its operations answers identically on two independent fresh databases), each history executed on one shared Db instance that also served all earlier histories of the worker; after every step the operation's observation (values, error text+range, descriptions) must equal its observation on a fresh Db, and describe on/off must give the same values. lookup-free histories: all sequences of length <=3 over 20 unit / number / function queries that would collide in plausible caches (one unit word under several prefixes and powers, one function with different arguments, one mantissa with different exponents), each step compared with a hand-written exact expectation. multi-result queries: (A) (B), (B) (A), (A) (B) (A') over 5+5 expressions with disjoint phrase sets (values, failing after a lookup, failing without one): the phrases of every computed result must be reported, in order, whatever fails before or after it. expressions: all trees with <=3 operands over {2, 0.5, 4 fact phrases} x {+ - * /} with explicit grouping; value with describe = value without = reference evaluation with the described constants substituted; descriptions = the phrases as written, one per phrase occurrence, in the evaluation order inferred from the two-phrase expressions. Non-trivial = the history/expression contains at least one fact lookup; distinct = distinct histories/expressions".into()
+        "histories: all sequences of length <=3 (thorough <=4) over 18 operations (9 queries: literal-only, one fact, two facts, facts inside a function call, an error after a lookup, a cast of a fact, a single word carried by several constants, the full word set of one of those, a three-result query whose middle expression fails after a lookup; each with descriptions off/on; a history is judged only if each of its operations answers identically on two independent fresh databases), each history executed on one shared Db instance that also served all earlier histories of the worker; after every step the operation's observation (values, error text+range, descriptions) must equal its observation on a fresh Db, and describe on/off must give the same values. near-collision histories: sequences of length <=3 over up to 16 full word sets of shipped constants that share word prefixes of >=5 characters (mauritius/mauritania...), each answer compared with the independently decoded constant. lookup-free histories: all sequences of length <=3 over 20 unit / number / function queries that would collide in plausible caches (one unit word under several prefixes and powers, one function with different arguments, one mantissa with different exponents), each step compared with a hand-written exact expectation. multi-result queries: (A) (B), (B) (A), (A) (B) (A') over 5+5 expressions with disjoint phrase sets (values, failing after a lookup, failing without one): the phrases of every computed result must be reported, in order, whatever fails before or after it. expressions: all trees with <=3 operands over {2, 0.5, 4 fact phrases} x {+ - * /} with explicit grouping; value with describe = value without = reference evaluation with the described constants substituted; descriptions = the phrases as written, one per phrase occurrence, in the evaluation order inferred from the two-phrase expressions. Non-trivial = the history/expression contains at least one fact lookup; distinct = distinct histories/expressions".into()
     }
     fn assumptions(&self) -> Vec<String> {
         vec![
@@ -234,6 +305,20 @@ impl Prop for C18 {
                 sink(Case::new("uhistory", format!("{a},{b}")));
                 for c in 0..n {
                     sink(Case::new("uhistory", format!("{a},{b},{c}")));
+                }
+            }
+        }
+        // histories over nearly colliding fact phrases: all sequences of length <= 3 (quick: <= 2 plus
+        // every triple that repeats its first element's partner)
+        let n = near_collisions().len();
+        for a in 0..n {
+            sink(Case::new("phistory", format!("{a}")));
+            for b in 0..n {
+                sink(Case::new("phistory", format!("{a},{b}")));
+                for c in 0..n {
+                    if tier == Tier::Thorough || c == a || c == b {
+                        sink(Case::new("phistory", format!("{a},{b},{c}")));
+                    }
                 }
             }
         }
@@ -309,6 +394,24 @@ impl Prop for C18 {
             }
             env.bulk_evals += (ops.len() as u64) * (NOPS as u64 + 2);
             return fw::pass(ops.iter().any(|o| o / 2 != 0), fw::hash_str(&state_before));
+        }
+        if case.fam == "phistory" {
+            let ops: Vec<usize> = case.key.split(',').map(|s| s.parse().unwrap()).collect();
+            // every operation must be right on a database that served nothing else (else: C16's subject)
+            static FIRST: std::sync::OnceLock<Vec<bool>> = std::sync::OnceLock::new();
+            let first = FIRST.get_or_init(|| (0..near_collisions().len()).map(|k| near_ok(&env.fresh_db(), k).is_ok()).collect());
+            if ops.iter().any(|k| !first[*k]) {
+                return Verdict::DontCare("a phrase is not answered with its own constant even on a fresh database (C16's subject)");
+            }
+            for (step, k) in ops.iter().enumerate() {
+                if let Err(why) = near_ok(env.db(), *k) {
+                    return fw::fail(
+                        format!("history-dependence:p{k}"),
+                        format!("after {:?} on the same database: {why} (on a fresh database the phrase finds its own constant)", ops[..step].iter().map(|i| near_collisions()[*i].0.clone()).collect::<Vec<_>>()),
+                    );
+                }
+            }
+            return fw::pass(ops.len() > 1, fw::hash_str(&case.key));
         }
         if case.fam == "uhistory" {
             let ops: Vec<usize> = case.key.split(',').map(|s| s.parse().unwrap()).collect();
